@@ -49,6 +49,7 @@ void step(int tid);                                   // run tid from its point 
 void set_untracked(const void * mutex);               // lock() of this mutex is not a scheduling point
 void set_post_unlock(const void * mutex);             // K_POSTUNLOCK points after notifying sections
 long total_steps();
+void spurious_wake(int tid);                          // a thread blocked on a condition variable becomes runnable
 
 // ---- called from scheduled threads ----
 void app_point();                                     // explicit scheduling point in driver code
